@@ -129,14 +129,19 @@ def firstHasRel : List BlockRef → Bool
   | [] => true
   | b :: _ => b.rel.isSome
 
-/-- `totLen ≤ 16000` is the bound of property C17's quantifier ("records of 24..16000 bytes"), not a PostgreSQL
-limit (XLogRecordMaxSize is about 1 GB) -/
+/-- XLogRecordMaxSize (xlogrecord.h): the largest xl_tot_len PostgreSQL writes, 1020 MiB -/
+def xlogRecordMaxSize : Nat := 1020 * 1024 * 1024
+
+/-- `totLen ≤ 1069547520` = `xlogRecordMaxSize` (written as a literal so that `omega` sees it; `xlogRecordMaxSize_eq`):
+PostgreSQL's own limit on a record, XLogRecordMaxSize.  A record may span any number of pages. -/
 def WalRecord.WF (pre15 : Bool) (r : WalRecord) : Prop :=
   r.xid < 2 ^ 32 ∧ r.prev < 2 ^ 64 ∧ r.info < 256 ∧ r.rmid < 256 ∧ r.crc < 2 ^ 32 ∧
   (∀ b ∈ r.blocks, b.WF pre15) ∧ idsAscending r.blocks = true ∧ firstHasRel r.blocks = true ∧
-  (∀ o ∈ r.origin, o < 65536) ∧ (∀ x ∈ r.topXid, x < 2 ^ 32) ∧ r.totLen ≤ 16000
+  (∀ o ∈ r.origin, o < 65536) ∧ (∀ x ∈ r.topXid, x < 2 ^ 32) ∧ r.totLen ≤ 1069547520
 
 instance (pre15 : Bool) (r : WalRecord) : Decidable (r.WF pre15) := by unfold WalRecord.WF; infer_instance
+
+theorem xlogRecordMaxSize_eq : xlogRecordMaxSize = 1069547520 := by decide
 
 /-! ### what must be reported for a record -/
 
@@ -303,16 +308,21 @@ def pgRmgrName : Nat → Option String
   | 18 => "CommitTs" | 19 => "ReplicationOrigin" | 20 => "Generic" | 21 => "LogicalMessage"
   | _ => none
 
-/-- the bits of xl_info that select the operation, per resource manager (the low four bits belong to the
-WAL machinery, XLR_INFO_MASK; heap, heap2, xact and brin use bit 7 as a flag: XLOG_HEAP_INIT_PAGE,
-XLOG_XACT_HAS_INFO, XLOG_BRIN_INIT_PAGE; a Generic record has no opcode) -/
+/-- the bits of xl_info rm_identify switches on, per resource manager: `info & ~XLR_INFO_MASK` (the low four bits belong
+to the WAL machinery) — for heap, heap2 and brin this includes bit 7, XLOG_HEAP_INIT_PAGE / XLOG_BRIN_INIT_PAGE: the flag
+is part of the record type's name (`INSERT+INIT`), and an opcode that cannot carry it has no name with it;
+xact_identify masks with XLOG_XACT_OPMASK 0x70 (bit 7 is XLOG_XACT_HAS_INFO); a Generic record has no opcode -/
 def opMask (rmid : Nat) : Nat :=
-  if rmid = 20 then 0x00 else if rmid = 1 ∨ rmid = 9 ∨ rmid = 10 ∨ rmid = 17 then 0x70 else 0xF0
+  if rmid = 20 then 0x00 else if rmid = 1 then 0x70 else 0xF0
 
-/-- rmid ↦ (opcode, first version, last version, name): the XLOG_<RMGR>_<NAME> opcodes as rm_identify names them,
-for the major versions 12..16 (flag suffixes such as `+INIT` are not part of the operation name).
+/-- rmid ↦ (opcode, first version, last version, name): the record types as rm_identify of each resource manager names
+them (what pg_waldump prints), for the major versions 12..16.  The string is rm_identify's, which is the suffix of the
+XLOG_<RMGR>_<NAME> macro except: heap_identify says HEAP_CONFIRM for XLOG_HEAP_CONFIRM, xact_identify INVALIDATION for
+XLOG_XACT_INVALIDATIONS; and heap_identify / heap2_identify / brin_identify name the combinations with
+XLOG_HEAP_INIT_PAGE / XLOG_BRIN_INIT_PAGE (0x80) that exist: INSERT+INIT, UPDATE+INIT, HOT_UPDATE+INIT (heap),
+MULTI_INSERT+INIT (heap2), INSERT+INIT, UPDATE+INIT (brin) — no other opcode has a name with that bit.
 Version-dependent: Heap2 0x10..0x30 (renumbered in 14), Database (15), Btree INSERT_POST/DEDUP (13),
-Transaction INVALIDATIONS (14), Gist ASSIGN_LSN (13).  Not listed, i.e. the Spec is silent there:
+Transaction INVALIDATION (14), Gist ASSIGN_LSN (13).  Not listed, i.e. the Spec is silent there:
 CommitTs 0x20 (SETTS, dropped in some release of this range), resource managers of extensions (ids ≥ 128). -/
 def pgOps : Nat → List (Nat × Nat × Nat × String)
   -- XLOG (pg_control.h)
@@ -322,10 +332,10 @@ def pgOps : Nat → List (Nat × Nat × Nat × String)
     (0x70, 12, 16, "RESTORE_POINT"), (0x80, 12, 16, "FPW_CHANGE"),
     (0x90, 12, 16, "END_OF_RECOVERY"), (0xA0, 12, 16, "FPI_FOR_HINT"), (0xB0, 12, 16, "FPI"),
     (0xD0, 12, 16, "OVERWRITE_CONTRECORD")]
-  -- Transaction (xact.h; XLOG_XACT_OPMASK 0x70)
+  -- Transaction (xact.h, xact_identify; XLOG_XACT_OPMASK 0x70)
   | 1 => [(0x00, 12, 16, "COMMIT"), (0x10, 12, 16, "PREPARE"), (0x20, 12, 16, "ABORT"),
     (0x30, 12, 16, "COMMIT_PREPARED"), (0x40, 12, 16, "ABORT_PREPARED"),
-    (0x50, 12, 16, "ASSIGNMENT"), (0x60, 14, 16, "INVALIDATIONS")]
+    (0x50, 12, 16, "ASSIGNMENT"), (0x60, 14, 16, "INVALIDATION")]
   -- Storage (storage_xlog.h)
   | 2 => [(0x10, 12, 16, "CREATE"), (0x20, 12, 16, "TRUNCATE")]
   -- CLOG (clog.h)
@@ -346,11 +356,12 @@ def pgOps : Nat → List (Nat × Nat × Nat × String)
   | 9 => [(0x00, 12, 16, "REWRITE"), (0x10, 12, 13, "CLEAN"), (0x20, 12, 13, "FREEZE_PAGE"),
     (0x30, 12, 13, "CLEANUP_INFO"), (0x10, 14, 16, "PRUNE"), (0x20, 14, 16, "VACUUM"),
     (0x30, 14, 16, "FREEZE_PAGE"), (0x40, 12, 16, "VISIBLE"), (0x50, 12, 16, "MULTI_INSERT"),
-    (0x60, 12, 16, "LOCK_UPDATED"), (0x70, 12, 16, "NEW_CID")]
-  -- Heap (heapam_xlog.h)
+    (0x60, 12, 16, "LOCK_UPDATED"), (0x70, 12, 16, "NEW_CID"), (0xD0, 12, 16, "MULTI_INSERT+INIT")]
+  -- Heap (heapam_xlog.h, heap_identify)
   | 10 => [(0x00, 12, 16, "INSERT"), (0x10, 12, 16, "DELETE"), (0x20, 12, 16, "UPDATE"),
-    (0x30, 12, 16, "TRUNCATE"), (0x40, 12, 16, "HOT_UPDATE"), (0x50, 12, 16, "CONFIRM"),
-    (0x60, 12, 16, "LOCK"), (0x70, 12, 16, "INPLACE")]
+    (0x30, 12, 16, "TRUNCATE"), (0x40, 12, 16, "HOT_UPDATE"), (0x50, 12, 16, "HEAP_CONFIRM"),
+    (0x60, 12, 16, "LOCK"), (0x70, 12, 16, "INPLACE"), (0x80, 12, 16, "INSERT+INIT"),
+    (0xA0, 12, 16, "UPDATE+INIT"), (0xC0, 12, 16, "HOT_UPDATE+INIT")]
   -- Btree (nbtxlog.h; INSERT_POST, DEDUP since 13)
   | 11 => [(0x00, 12, 16, "INSERT_LEAF"), (0x10, 12, 16, "INSERT_UPPER"), (0x20, 12, 16, "INSERT_META"),
     (0x30, 12, 16, "SPLIT_L"), (0x40, 12, 16, "SPLIT_R"), (0x50, 13, 16, "INSERT_POST"),
@@ -379,10 +390,10 @@ def pgOps : Nat → List (Nat × Nat × Nat × String)
   | 16 => [(0x10, 12, 16, "ADD_LEAF"), (0x20, 12, 16, "MOVE_LEAFS"), (0x30, 12, 16, "ADD_NODE"),
     (0x40, 12, 16, "SPLIT_TUPLE"), (0x50, 12, 16, "PICKSPLIT"), (0x60, 12, 16, "VACUUM_LEAF"),
     (0x70, 12, 16, "VACUUM_ROOT"), (0x80, 12, 16, "VACUUM_REDIRECT")]
-  -- BRIN (brin_xlog.h; XLOG_BRIN_OPMASK 0x70)
+  -- BRIN (brin_xlog.h, brin_identify; 0x80 is XLOG_BRIN_INIT_PAGE)
   | 17 => [(0x00, 12, 16, "CREATE_INDEX"), (0x10, 12, 16, "INSERT"), (0x20, 12, 16, "UPDATE"),
     (0x30, 12, 16, "SAMEPAGE_UPDATE"), (0x40, 12, 16, "REVMAP_EXTEND"),
-    (0x50, 12, 16, "DESUMMARIZE")]
+    (0x50, 12, 16, "DESUMMARIZE"), (0x90, 12, 16, "INSERT+INIT"), (0xA0, 12, 16, "UPDATE+INIT")]
   -- CommitTs (commit_ts.h)
   | 18 => [(0x00, 12, 16, "ZEROPAGE"), (0x10, 12, 16, "TRUNCATE")]
   -- ReplicationOrigin (origin.h)
